@@ -387,6 +387,11 @@ func c20compose(p *core.Prog, f, cl *ssa.Function, compose bool) (bool, string) 
 				single = true
 			}
 		}
+		if !single {
+			// however the test is spelled (`lastIndex == 0` with lastIndex = len-1): the facts of this return imply len == 1
+			z := core.ZoneAt(r.Block())
+			single = z.ProveEq(core.LinNode("len("+f.Params[0].Name()+")"), core.LinConst(1))
+		}
 		if single && outer.Call.Args[0] == ssa.Value(sArg) {
 			okSingle = true
 		}
